@@ -71,7 +71,8 @@ async def execute(net, hyg, plan):
     def policy(conn):
         if conn.port == 2121 and conn.id < len(lats) * 2:
             pass
-    world = W.World(net, tree={"/f.bin": b"x" * 5000}, data_ports=conf)
+    host = plan.get("host", "127.0.0.1")      # "::1": PASV is answered 503 there, EPSV works
+    world = W.World(net, tree={"/f.bin": b"x" * 5000}, data_ports=conf, host=host)
     await world.start()
     server = world.server
     for port, plan_errs in (plan.get("faults") or {}).items():
@@ -152,7 +153,7 @@ async def execute(net, hyg, plan):
         await s.run(script)
 
     for j, script in enumerate(plan["scripts"]):
-        sessions.append(Session(net, 2121, name=f"s{j}"))
+        sessions.append(Session(net, 2121, name=f"s{j}", host=host))
     if lats:
         def policy(conn):  # noqa: F811
             # control connections are created in session order at staggered times; skew by connection id
@@ -185,20 +186,20 @@ async def execute(net, hyg, plan):
     got = []
     fresh = []
     for j in range(n):
-        s = Session(net, 2121, name=f"fresh{j}")
+        s = Session(net, 2121, name=f"fresh{j}", host=host)
         fresh.append(s)
-        await s.run(LOGIN + [["pasv"]])
+        await s.run(LOGIN + [["epsv" if ":" in host else "pasv"]])
         codes = s.flat_codes()
-        got.append((codes[-1] if codes else None, s.pasv_port if codes and codes[-1] == "227" else None))
+        got.append((codes[-1] if codes else None, s.pasv_port if codes and codes[-1] in ("227", "229") else None))
     mon["blackbox_reopen"] += 1
-    ok_ports = sorted(p for c, p in got if c == "227")
+    ok_ports = sorted(p for c, p in got if c in ("227", "229"))
     if n and ok_ports != sorted(conf):
         viol.append({"key": "port-lost" if len(ok_ports) < n else "port-duplicated",
                      "msg": f"after all sessions ended only {ok_ports} of {conf} could be opened again: {got}",
                      "detail": {"reopen": got}})
     if n == 0:
-        s = Session(net, 2121, name="fresh0")
-        await s.run(LOGIN + [["pasv"]])
+        s = Session(net, 2121, name="fresh0", host=host)
+        await s.run(LOGIN + [["epsv" if ":" in host else "pasv"]])
         mon["blackbox_reopen"] += 0
         if s.flat_codes()[-1:] != ["421"]:
             viol.append({"key": "empty-pool-not-421", "msg": f"PASV with an empty pool answered {s.flat_codes()}"})
@@ -315,6 +316,11 @@ def gen_cases(tier, seed):
                            str(PORTS[1]): [errno.EADDRINUSE]},
                 "scripts": [LOGIN + [[cmd], ["sleep", 0.1], ["quit"]], LOGIN + [[cmd], ["quit"]],
                             LOGIN + [[cmd], ["cmd", "PWD"], ["quit"]]]}})
+    # IPv6 control connections: PASV is refused (503) there, EPSV serves
+    for name in sorted(TEMPLATES):
+        for n in (1, 2):
+            cases.append({"kind": "single", "seed": seed, "plan": {"n": n, "host": "::1", "scripts": [TEMPLATES[name], TEMPLATES["epsv2"]],
+                                                                   "offsets": [0, 0.002], "yields": [1, 1]}})
     # commands sent without waiting for the replies (two listener start-ups of one session in flight at once)
     for name in ("pipe_pasv2", "pipe_pasv_epsv", "pipe_pasv_cut", "relogin_pasv", "relogin_epsv_data", "relogin_cut"):
         for n in (1, 2, 3):
